@@ -7,7 +7,7 @@ from jugverif import core, execchecks as X, execengine as E, lib, sched
 
 LEVEL = 'proof'
 THEOREMS = ['Jug.C12.continuation_completes', 'Jug.C12.stop_leaves_no_lock', 'Jug.C12.stop_always_enabled', 'Jug.C12.stop_changes_nothing_shared', 'Jug.C12.stopping_only_unlocks_and_exits',
-            'Jug.C12.cannot_exit_holding', 'Jug.C12.interrupted_task_has_no_result', 'Jug.C12.state_after_stop_is_regular']
+            'Jug.C12.cannot_exit_holding', 'Jug.C12.interrupted_task_has_no_result', 'Jug.C12.state_after_stop_is_regular', 'Jug.LoopBridge.continuation_completes_of_loop_workers']
 
 
 def extract():
